@@ -4,6 +4,8 @@ Expressions are tuples:
   ('c', v) ('v', name) ('+', a, b) ('*', a, b) ('/', a, b) ('sin', a) ('cos', a) ('exp', a) ('tanh', a)
   ('pow', a, n)   integer n >= 0
   ('D', mode, var, body, at)   derivative of (lambda var: body) evaluated at `at`; mode is ignored here
+  ('H', mode, var, body, at)   second derivative of (lambda var: body) at `at`
+  ('F', e)                     e, evaluated after a failing inner differentiation was caught (no effect on the value)
   ('P', mode, var, body, at)   the primal value (lambda var: body)(at) as returned by a differential operator
 
 resolve(D(λy.B)(A)) = subst(∂_y resolve(B), y := resolve(A)); binders are unique so capture cannot
@@ -60,6 +62,11 @@ def resolve(e):
     if t == "D":
         _, mode, var, body, at = e
         return subst(d(resolve(body), var), var, resolve(at))
+    if t == "H":  # second derivative of (lambda var: body) at `at` (Hessian-vector-product operators on a scalar)
+        _, mode, var, body, at = e
+        return subst(d(d(resolve(body), var), var), var, resolve(at))
+    if t == "F":  # "a caught failing differentiation happens first, then e": no effect on the value
+        return resolve(e[1])
     if t == "P":  # the primal value of (lambda var: body)(at) as handed back by a differential operator
         _, mode, var, body, at = e
         return subst(resolve(body), var, resolve(at))
@@ -92,7 +99,7 @@ def mentions(e, name):
         return e[1] == name
     if t == "pow":
         return mentions(e[1], name)
-    if t in ("D", "P"):
+    if t in ("D", "P", "H"):
         return mentions(e[3], name) or mentions(e[4], name)
     return any(mentions(a, name) for a in e[1:])
 
@@ -103,8 +110,8 @@ def ndepth(e):
         return 0
     if t == "pow":
         return ndepth(e[1])
-    if t in ("D", "P"):
-        return 1 + max(ndepth(e[3]), ndepth(e[4]))
+    if t in ("D", "P", "H"):
+        return (2 if t == "H" else 1) + max(ndepth(e[3]), ndepth(e[4]))
     return max(ndepth(a) for a in e[1:])
 
 
@@ -114,6 +121,6 @@ def size(e):
         return 1
     if t == "pow":
         return 1 + size(e[1])
-    if t in ("D", "P"):
+    if t in ("D", "P", "H"):
         return 1 + size(e[3]) + size(e[4])
     return 1 + sum(size(a) for a in e[1:])
